@@ -143,11 +143,80 @@ def rule_fieldset(prog, rep):
         rep.finding("C19.FIELDSET", f.name, "all-selections", "a field set does not serialize every selection of its set separated by a line break or space", f.loc())
 
 
+def rule_fromast(prog, rep):
+    """C19.FROMAST: the AST -> executable lowering (executable/from_ast.rs) carries every component
+    of the AST node: each `SelectionSet::push` of a Field / FragmentSpread / InlineFragment is given
+    a value that is computed from *every* field of the corresponding ast struct, and the
+    Operation / Fragment aggregates draw each field from the same-named field of the AST
+    definition (the selection set through extend_from_ast).  A lowering that drops, say, the
+    directives of a field loses `@include(if: $v)` - the document then no longer round-trips, and
+    standalone validation reports `$v` as unused although the document is valid with the schema."""
+    from ..flow import derives
+    rep.floor("C19.FROMAST", 5)
+    f = prog.fn(r"^apollo_compiler::executable::from_ast::<impl apollo_compiler::executable::SelectionSet>::extend_from_ast$")
+    pushes = [c for c in f.live_calls() if re.search(r"executable::SelectionSet::push$", c.name)]
+    seen = set()
+    for c in pushes:
+        paths, _ = derives(f, c.args[1], maxn=1500)
+        var = None
+        for q in paths:
+            m = re.search(r"\.as:(Field|FragmentSpread|InlineFragment)\.0$", q)
+            if m:
+                var = m.group(1)
+        if var is None:
+            rep.finding("C19.FROMAST", f.name, "push-source", "a selection pushed by extend_from_ast is not computed from an AST selection (`%s`)" % f.sym(c.args[1])[:80], c.loc())
+            continue
+        seen.add(var)
+        names = _fields(prog.adt(r"^apollo_compiler::ast::%s$" % var))
+        missing = [n for n in names if not any(q.endswith("." + n) for q in paths)]
+        rep.obligation(not missing)
+        if missing:
+            rep.finding("C19.FROMAST", f.name, "dropped:%s:%s" % (var, ",".join(missing)),
+                        "the executable %s pushed here is not computed from the AST node's `%s`: that part of the source document is dropped when the executable document is built (on some path)" % (var, "`, `".join(missing)), c.loc())
+        else:
+            rep.instance("C19.FROMAST", "extend_from_ast: a pushed %s carries %s of the AST node" % (var, ", ".join(names)))
+    for var in ("Field", "FragmentSpread", "InlineFragment"):
+        if var not in seen:
+            rep.finding("C19.FROMAST", f.name, "no-push:" + var, "extend_from_ast never pushes a %s" % var, f.loc())
+    for ty, astty in (("Operation", "OperationDefinition"), ("Fragment", "FragmentDefinition")):
+        g = prog.fn(r"^apollo_compiler::executable::from_ast::<impl apollo_compiler::executable::%s>::from_ast$" % ty)
+        ai = None
+        for i, (t, _) in enumerate(g.d["locals"][:g.d["argc"] + 1]):
+            if i and ("ast::" + astty) in t:
+                ai = i
+        if ai is None:
+            raise Undecided("%s::from_ast: no ast::%s parameter" % (ty, astty))
+        aggs = []
+        for b in sorted(g.live_blocks()):
+            for st in g.stmts(b):
+                if st[0] == "=" and st[2][0] == "agg" and isinstance(st[2][1], list) and st[2][1][0] == "adt" and st[2][1][1] == "apollo_compiler::executable::" + ty:
+                    aggs.append(st)
+        if not aggs:
+            raise Undecided("%s::from_ast: no executable::%s aggregate" % (ty, ty))
+        ext = [c for c in g.live_calls() if c.name.endswith("::extend_from_ast")]
+        ok_sel = bool(ext) and all(re.search(r"arg%d\)?\.selection_set" % ai, g.sym(c.args[3])) for c in ext)
+        bad = []
+        for st in aggs:
+            for n, o in zip(st[2][1][3], st[2][2]):
+                if n == "selection_set":
+                    continue
+                want = "type_condition" if (ty == "Fragment" and n == "type_condition") else n
+                if not re.search(r"arg%d\)?\.%s\b" % (ai, re.escape(want)), g.sym(o)):
+                    bad.append((n, g.sym(o)[:60]))
+        rep.obligation(ok_sel and not bad)
+        if ok_sel and not bad:
+            rep.instance("C19.FROMAST", "%s::from_ast: every field is drawn from the same-named field of the AST definition; selections through extend_from_ast(ast.selection_set)" % ty)
+        else:
+            rep.finding("C19.FROMAST", g.name, "fields:" + ",".join(n for n, _ in bad) if bad else "selection_set",
+                        "%s::from_ast does not draw %s from the AST definition" % (ty, bad if bad else "its selections"), g.loc())
+
+
 def run(prog, rep):
     rule_fields(prog, rep)
     rule_sel(prog, rep)
     rule_doc(prog, rep)
     rule_fieldset(prog, rep)
+    rule_fromast(prog, rep)
     # the lowered AST is printed by the AST printer (C08 / C09 rules, shared)
     from . import C08
     C08.run(prog, rep)
